@@ -126,6 +126,7 @@ def run_geom_case(ctx, case):
             bad = (float(x), float(y), int(gc), ec, dist)
         ctx.nontrivial(nrows, ncols, xll, yll, csz, float(x), float(y))
     ctx.tag("inside", njudged)
+    ctx.evaluated(njudged)
     ctx.check("coord2cell.inside", bad is None, "coord2cell|inside-footprint", case,
               lambda: {"x,y,got,expected,edge_dist": bad})
     # ---- outside points
@@ -150,6 +151,7 @@ def run_geom_case(ctx, case):
             ctx.extra["outside-points-not-judged"] += 1
             continue
         ctx.tag("outside:" + side)
+        ctx.evaluated()
         ctx.check("coord2cell.outside", int(gc) == -1, f"coord2cell|outside|{side}",
                   case, lambda: {"x": x, "y": y, "got": int(gc),
                                  "distance_from_extent_in_cells": dist})
@@ -179,6 +181,7 @@ def run_geom_case(ctx, case):
                               "neighbours|mirror", case,
                               lambda: {"cell": c, "pos": p, "neighbour": nbc,
                                        "its_neighbours": list(map(int, nb2))})
+        ctx.evaluated()
         ctx.nontrivial(nrows, ncols, "nb", c)
     # ---- invalid cells
     for bad_c in (-1, n, n + 1, 2 ** 62, -2 ** 62, -n):
